@@ -148,6 +148,31 @@ Theorem C03_cmp_cov r op a a' o o' :
   reg_nz r → oequiv ppos r (Qty a) (Qty a') → oequiv ppos r o o' → q_cmp r op a o = q_cmp r op a' o'.
 Proof. intros H. exact (cmp_cov ppos r H op a a' o o' ppos_pos). Qed.
 
+(** ordering across different containers, OFFSET units included (kelvin vs degC, degF …): it is the
+    ordering of the root-unit magnitudes with the offsets applied, hence covariant under
+    re-expression in any unit (multiplicative or a lone offset unit) *)
+Theorem C03_cmp_via_root r op a b d a' b' :
+  uc_eqb (q_u a) (q_u b) = false →
+  dim_of r (q_u a) = Ok d → dim_of r (q_u b) = Ok d →
+  q_to_root r a = Ok a' → q_to_root r b = Ok b' →
+  q_cmp r op a (Qty b) = Ok (mcmp op (q_m a') (q_m b')).
+Proof. exact (cmp_via_root r op a b d a' b'). Qed.
+Theorem C03_cmp_cov_offset r op a b a2 b2 d a' b' a2' b2' :
+  uc_eqb (q_u a) (q_u b) = false → uc_eqb (q_u a2) (q_u b2) = false →
+  dim_of r (q_u a) = Ok d → dim_of r (q_u b) = Ok d → dim_of r (q_u a2) = Ok d → dim_of r (q_u b2) = Ok d →
+  q_to_root r a = Ok a' → q_to_root r b = Ok b' → q_to_root r a2 = Ok a2' → q_to_root r b2 = Ok b2' →
+  q_m a' = q_m a2' → q_m b' = q_m b2' →
+  q_cmp r op a (Qty b) = q_cmp r op a2 (Qty b2).
+Proof. exact (cmp_cov_root r op a b a2 b2 d a' b' a2' b2'). Qed.
+(** 280 K > 10 degC is False, as 280 K > 283.15 K; 10 degC < 280 K is False; 50 degF (= 10 degC) likewise *)
+Example C03_example_ordering_offset_units :
+  q_cmp default_reg CGt (Qn (Fin (mkq 280 1)) {[ "kelvin" := 1%Qc ]}) (Qty (Qn (Fin (mkq 10 1)) {[ "degree_Celsius" := 1%Qc ]})) = Ok false
+  ∧ q_cmp default_reg CGt (Qn (Fin (mkq 280 1)) {[ "kelvin" := 1%Qc ]}) (Qty (Qn (Fin (mkq 28315 100)) {[ "kelvin" := 1%Qc ]})) = Ok false
+  ∧ q_cmp default_reg CLt (Qn (Fin (mkq 10 1)) {[ "degree_Celsius" := 1%Qc ]}) (Qty (Qn (Fin (mkq 280 1)) {[ "kelvin" := 1%Qc ]})) = Ok false
+  ∧ q_cmp default_reg CGt (Qn (Fin (mkq 280 1)) {[ "kelvin" := 1%Qc ]}) (Qty (Qn (Fin (mkq 50 1)) {[ "degree_Fahrenheit" := 1%Qc ]})) = Ok false
+  ∧ q_cmp default_reg CGe (Qn (Fin (mkq 28315 100)) {[ "kelvin" := 1%Qc ]}) (Qty (Qn (Fin (mkq 50 1)) {[ "degree_Fahrenheit" := 1%Qc ]})) = Ok true.
+Proof. repeat split; vm_compute; reflexivity. Qed.
+
 (** * Reflected forms agree with the plain forms *)
 (** [b.__rop__(a)] with a quantity [a] is [a op b] ([__rtruediv__], [__rpow__] are operator
     paths only for a bare left operand) *)
